@@ -71,6 +71,7 @@ type ext struct {
 	kind    byte // O S X
 	decodes bool
 	ov      [][3]string
+	wk      byte // kind X: 0 = a registered extension with an unknown id, 1 = gNMI master arbitration, 2 = gNMI history (well-known, not registered)
 }
 
 type request struct {
@@ -246,7 +247,15 @@ func (r request) gnmi() *gnmi.SetRequest {
 			}
 			req.Extension = append(req.Extension, regExt(configapi.TransactionStrategyExtensionID, b))
 		default:
-			req.Extension = append(req.Extension, regExt(999, []byte("zz")))
+			switch e.wk {
+			case 1:
+				req.Extension = append(req.Extension, &gnmi_ext.Extension{Ext: &gnmi_ext.Extension_MasterArbitration{
+					MasterArbitration: &gnmi_ext.MasterArbitration{ElectionId: &gnmi_ext.Uint128{Low: 1}}}})
+			case 2:
+				req.Extension = append(req.Extension, &gnmi_ext.Extension{Ext: &gnmi_ext.Extension_History{History: &gnmi_ext.History{}}})
+			default:
+				req.Extension = append(req.Extension, regExt(999, []byte("zz")))
+			}
 		}
 	}
 	_ = hasStrategy
@@ -705,8 +714,10 @@ func genRequest(r *rand.Rand, o genOpts) request {
 	if r.Intn(25) == 0 {
 		req.exts = append(req.exts, ext{kind: 'S', decodes: false})
 	}
-	if r.Intn(6) == 0 {
-		req.exts = append(req.exts, ext{kind: 'X'})
+	if r.Intn(4) == 0 {
+		// an extension the server has no use for, AHEAD of the ones it reads: a registered one with an unknown id or one of
+		// gNMI's well-known extensions (legal in any Set; every extension behind it must still be found and judged)
+		req.exts = append([]ext{{kind: 'X', wk: byte(r.Intn(3))}}, req.exts...)
 	}
 	// the targets the request names (operation targets and the prefix target), resolvable or not
 	named := []string{}
